@@ -29,24 +29,32 @@ theorem membership_rule (delay : Int) (i : CalcIn) (host : String) (node : NodeS
      (node.pingOk = false ∧ host ∈ i.oldActive ∧ ∃ d, i.dcs.get? host = some d ∧
         (node.pingDubious = true ∨ d.pingOk = true ∨
           ∃ t, (i.timers.get? host = some t ∨ (i.timers.get? host = none ∧ t = i.now)) ∧ i.now - t < delay))) := by
-  sorry
+  unfold classify at hmem
+  have hne' : (host == i.master) = false := by simpa using hne
+  simp only [hne'] at hmem
+  repeat' split at hmem
+  all_goals simp_all [Membership.isMember]
+  all_goals (rename_i hd _; rcases hd with hd | hd <;> simp [hd])
 
 /-- the master is always a member, even when it is marked for recovery -/
 theorem master_always_member (delay : Int) (i : CalcIn) (node : NodeState) :
     (classify delay i i.master node).1 = .master := by
-  sorry
+  simp [classify]
 
 /-- never ADDS an unreachable host: unreachable hosts are members only if they were members before -/
 theorem unreachable_never_added (delay : Int) (i : CalcIn) (host : String) (node : NodeState)
     (hp : node.pingOk = false) (hne : host ≠ i.master) (hold : host ∉ i.oldActive) :
     (classify delay i host node).1.isMember = false := by
-  sorry
+  unfold classify
+  simp only [hp]
+  repeat' split
+  all_goals simp_all [Membership.isMember]
 
 /-- the list returned by `calcActiveNodes` consists exactly of the visited hosts classified as members -/
 theorem calc_members (delay : Int) (i : CalcIn) (active : List String) (cls : List (String × Membership)) (t : Timers)
     (h : calcActiveNodes delay i = some (active, cls, t)) :
-    ∀ x, x ∈ active ↔ ∃ n, (x, n) ∈ i.cs ∧ (classify delay i x n).1.isMember = true := by
-  sorry
+    ∀ x, x ∈ active ↔ ∃ n, (x, n) ∈ i.cs ∧ (classify delay i x n).1.isMember = true :=
+  ActiveNodesLemmas.mem_calcActiveNodes delay i active cls t h
 
 /-! ### download-lag gate (`calcActiveNodesChanges`) -/
 
@@ -55,16 +63,16 @@ theorem calc_members (delay : Int) (i : CalcIn) (active : List String) (cls : Li
 theorem datalag_gate (cfg : Cfg) (cs : ClusterState) (active old : List String) (master : String)
     (bl : List (String × Int)) (rp : List (String × String)) (ch : Changes) (h : String)
     (hc : calcChanges cfg cs active old master (some bl) rp = some ch) (hm : h ∈ ch.becomeActive) :
-    ∀ sl, (cs.get? h).bind (·.slave) = some sl → calcLagBytes bl sl.logFile sl.logPos ≤ cfg.semiSyncEnableLag := by
-  sorry
+    ∀ sl, (cs.get? h).bind (·.slave) = some sl → calcLagBytes bl sl.logFile sl.logPos ≤ cfg.semiSyncEnableLag :=
+  ActiveNodesLemmas.calcChanges_becomeActive_lag cfg cs active old master bl rp ch h hc hm
 
 /-- a lagging replica whose IO position did not advance is made inactive; one that advances is
 neither enabled nor made inactive -/
 theorem datalag_disjoint (cfg : Cfg) (cs : ClusterState) (active old : List String) (master : String)
     (bl : Option (List (String × Int))) (rp : List (String × String)) (ch : Changes)
     (hc : calcChanges cfg cs active old master bl rp = some ch) :
-    (∀ h, h ∈ ch.dataLag → h ∉ ch.becomeActive) ∧ (∀ h, h ∈ ch.becomeActive → h ∉ ch.becomeInactive) := by
-  sorry
+    (∀ h, h ∈ ch.dataLag → h ∉ ch.becomeActive) ∧ (∀ h, h ∈ ch.becomeActive → h ∉ ch.becomeInactive) :=
+  ActiveNodesLemmas.calcChanges_disjoint cfg cs active old master bl rp ch hc
 
 /-! ### ordering facts of `updateActiveNodes` -/
 
@@ -72,23 +80,23 @@ theorem datalag_disjoint (cfg : Cfg) (cs : ClusterState) (active old : List Stri
 previous member is directly preceded by a successful ping of the master -/
 theorem eviction_needs_master (i : UpdIn) (active : List String) (l : List String) (ok : Bool)
     (hp : (⟨.publish l, ok⟩ : Ev) ∈ publishPart i active) (hrem : filterOut i.oldActive active ≠ []) :
-    (⟨.pingMasterShrink, true⟩ : Ev) ∈ publishPart i active ∧ l = active := by
-  sorry
+    (⟨.pingMasterShrink, true⟩ : Ev) ∈ publishPart i active ∧ l = active :=
+  ActiveNodesLemmas.publishPart_eviction i active l ok hp hrem
 
 /-- nothing at all is changed when the first master ping fails -/
 theorem suspicious_master_no_update (cfg : Cfg) (i : UpdIn) (h : i.fails .pingMaster = true) :
     updateSemiSync cfg i = [⟨.pingMaster, false⟩] := by
-  sorry
+  rw [ActiveNodesLemmas.updateSemiSync_eq, if_pos h]
 
 /-- publication is the last call of the procedure -/
 theorem publish_is_last (cfg : Cfg) (i : UpdIn) (l : List String) (ok : Bool)
-    (h : (⟨.publish l, ok⟩ : Ev) ∈ updateSemiSync cfg i) : (updateSemiSync cfg i).getLast? = some ⟨.publish l, ok⟩ := by
-  sorry
+    (h : (⟨.publish l, ok⟩ : Ev) ∈ updateSemiSync cfg i) : (updateSemiSync cfg i).getLast? = some ⟨.publish l, ok⟩ :=
+  ActiveNodesLemmas.updateSemiSync_publish_last cfg i l ok h
 
 /-- replicas entering semi-sync are enabled in list order and a host whose enabling failed is not published -/
 theorem failed_enable_not_published (i : UpdIn) (hs : List String) (wsc : Int) (active : List String) (h : String)
-    (hh : h ∈ hs) (hf : i.fails (.ssSetSlave h) = true) : h ∉ (enableLoop i hs wsc active).2.2 := by
-  sorry
+    (hh : h ∈ hs) (hf : i.fails (.ssSetSlave h) = true) : h ∉ (enableLoop i hs wsc active).2.2 :=
+  ActiveNodesLemmas.enableLoop_failed_not_member i hs wsc active h hh hf
 
 /-! ### (a) and (b) after a complete iteration -/
 
@@ -107,16 +115,20 @@ theorem complete_iteration_restores_A_partial (cfg : Cfg) (i : UpdIn) (w : World
     (hsub : ∀ h, h ∈ i.changes.becomeActive → h ∈ i.active) (hm : i.master ∉ i.changes.becomeActive) :
     let w' := w.run i.master (updateSemiSync cfg i)
     ∀ h, h ∈ w'.slaveEnabled → h ≠ i.master → h ∈ w'.published := by
-  sorry
+  intro w' h hh _
+  have _ := hm  -- not needed: the lemma holds without it (and for `h = i.master` too)
+  exact ActiveNodesLemmas.complete_iteration_restores_A cfg i w hw hok hchg hsub h hh
 
 /-- (b) after a complete fault-free iteration WITHOUT data-lagging replicas: the master waits for at
 least the number implied by the published list.  PARTIAL: with data-lagging replicas the statement is
-false (`witness_B_data_lag`). -/
+false (`witness_B_data_lag`); `hchg` (the change set is the one `calcActiveNodesChanges` computes, so the
+master is not told to leave semi-sync) is needed too: `ActiveNodesLemmas.counterexample_B_master_becomeInactive`. -/
 theorem complete_iteration_restores_B_partial (cfg : Cfg) (i : UpdIn) (w : World)
     (hw : WorldMatches i w) (hok : ∀ c, i.fails c = false) (hlag : i.changes.dataLag = [])
-    (hcfg : 0 ≤ cfg.waitCount) (hm : i.master ∈ i.active) :
-    invB cfg (w.run i.master (updateSemiSync cfg i)) = true := by
-  sorry
+    (hchg : i.changes.becomeInactive = filterOut ((i.cs.filter fun e => match e.2.semiSync with | some ss => ss.slaveEnabled | none => false).map (·.1)) i.active)
+    (hm : i.master ∈ i.active) :
+    invB cfg (w.run i.master (updateSemiSync cfg i)) = true :=
+  ActiveNodesLemmas.complete_iteration_restores_B_partial_of_hchg cfg i w hw hok hlag hchg hm
 
 /-! ### machine-checked witnesses of the breaker classes (negations with concrete histories) -/
 
